@@ -43,7 +43,8 @@ Definition unrle (r : rle) : bytes :=
 Inductive cop :=
 | CWrite (s : N) (p : rle)      (* s = wall-clock second (relative) observed around the call *)
 | CRemove | CMove
-| CReopen (s : N).
+| CReopen (s : N)
+| CDirAway | CDirBack.           (* the directory of the log renamed away (or replaced by a file) / restored *)
 
 Record wcase := mkW {
   w_id : N;
@@ -66,7 +67,11 @@ Record ccase := mkC {
   c_openable : bool;                 (* can the destination be created at all *)
   c_sec0 : N;
   c_init : rle;
-  c_bursts : list (N * N * list rle);(* (second while sending, second of the idle flush, encoded events) *)
+  c_bursts : list (N * N * N * list (option rle));
+                                     (* per burst: fault that hits the quiescent channel before it (0 none,
+                                        1 file removed, 2 file renamed away, 3 directory away, 4 directory back),
+                                        second while sending, second of the idle flush, the events: Some = its
+                                        encoding, None = an event json.Encoder rejects *)
   c_clock : list N;                  (* when not empty: the second of the g-th rotation, read off the
                                         names of the rotated files (a flush with hundreds of rotations
                                         can straddle seconds); replaces the two readings above *)
@@ -74,7 +79,9 @@ Record ccase := mkC {
   c_new_ok : bool;                   (* New returned a channel (no error) *)
   c_blocked : bool;                  (* some Send did not return within the bound *)
   c_cur : rle;
-  c_rot : list (N * N * rle)
+  c_rot : list (N * N * rle);
+  c_moved : list rle;
+  c_gone : list rle
 }.
 
 Inductive case := CW (c : wcase) | CC (c : ccase).
@@ -170,19 +177,34 @@ Definition to_op (o : cop) : op :=
   | CRemove => ORemove
   | CMove => OMove
   | CReopen s => OReopen s
+  | CDirAway => ODirAway
+  | CDirBack => ODirBack
   end.
 
-Definition w_model (c : wcase) : option (rf * list Z) :=
+Definition w_model (c : wcase) : option (rf * list (option Z)) :=
   run (rf_open (w_max c) (w_sec0 c) (unrle (w_init c))) [] (map to_op (w_ops c)).
 
 Definition unrot (l : list (N * N * rle)) : list (rname * bytes) := map (fun e => (fst e, unrle (snd e))) l.
+
+(* model: Some n / None (error);  observed: (n, err == nil) *)
+Definition ret_eqb (m : option Z) (o : Z * bool) : bool :=
+  match m with
+  | Some n => snd o && (n =? fst o)
+  | None => negb (snd o)
+  end.
+
+Fixpoint list_eqb2 {A B} (e : A -> B -> bool) (a : list A) (b : list B) : bool :=
+  match a, b with
+  | [], [] => true
+  | x :: a', y :: b' => e x y && list_eqb2 e a' b'
+  | _, _ => false
+  end.
 
 Definition w_mismatch (c : wcase) : bool :=
   match w_model c with
   | None => true
   | Some (st, rets) =>
-      negb (list_eqb Z.eqb rets (map fst (w_rets c))
-            && forallb snd (w_rets c)
+      negb (list_eqb2 ret_eqb rets (w_rets c)
             && Bool.eqb (rf_exists st) (w_exists c)
             && beq (rf_cur st) (unrle (w_cur c))
             && rot_eqb (sort_rot (rf_rot st)) (unrot (w_rot c))
@@ -190,14 +212,18 @@ Definition w_mismatch (c : wcase) : bool :=
             && list_eqb beq (rf_gone st) (map unrle (w_gone c)))
   end.
 
-Definition w_written (c : wcase) : list bytes :=
-  flat_map (fun o => match o with CWrite _ p => [unrle p] | _ => [] end) (w_ops c).
-
-Fixpoint rets_ok (ps : list bytes) (rs : list (Z * bool)) : bool :=
-  match ps, rs with
-  | [], [] => true
-  | p :: ps', r :: rs' => snd r && (fst r =? zlen p) && rets_ok ps' rs'
-  | _, _ => false
+(* every Write issued while the destination was reachable returned (len p, nil); [d] = reachable *)
+Fixpoint rets_ok (d : bool) (ops : list cop) (rs : list (Z * bool)) : bool :=
+  match ops with
+  | [] => match rs with [] => true | _ => false end
+  | CWrite _ p :: ops' =>
+      match rs with
+      | r :: rs' => (if d then snd r && (fst r =? zlen (unrle p)) else true) && rets_ok d ops' rs'
+      | [] => false
+      end
+  | CDirAway :: ops' => rets_ok false ops' rs
+  | CDirBack :: ops' => rets_ok true ops' rs
+  | _ :: ops' => rets_ok d ops' rs
   end.
 
 Definition w_class (c : wcase) : bool * bool :=
@@ -209,17 +235,25 @@ Definition w_class (c : wcase) : bool * bool :=
 Definition w_sig (c : wcase) : N :=
   let init := unrle (w_init c) in
   let files := map unrle (w_gone c) ++ map unrle (w_moved c) ++ map snd (unrot (w_rot c)) ++ [unrle (w_cur c)] in
-  let sent := lines_of init ++ flat_map lines_of (w_written c) in
-  if negb (rets_ok (w_written c) (w_rets c)) then SIG_WRITE_ERR
+  (* the property: what was handed over while the destination was reachable *)
+  let sent := lines_of (init ++ accepted true (map to_op (w_ops c))) in
+  if negb (rets_ok true (w_ops c) (w_rets c)) then SIG_WRITE_ERR
   else if negb (size_ok (w_max c) init files) then SIG_SIZE
   else let '(d, s) := w_class c in lines_sig sent files d s.
 
 (* ---- CC ---- *)
+Definition fault_of (n : N) : option fault :=
+  match n with
+  | 1 => Some FRemove | 2 => Some FMove | 3 => Some FDirAway | 4 => Some FDirBack | _ => None
+  end%N.
+
 Definition c_events (c : ccase) : list wev :=
-  flat_map (fun b => let '(s1, s2, ls) := b in
+  flat_map (fun b => let '(f, s1, s2, ls) := b in
               let k1 := match c_clock c with [] => (fun _ => s1) | l => (fun g => nth g l 0%N) end in
               let k2 := match c_clock c with [] => (fun _ => s2) | l => (fun g => nth g l 0%N) end in
-              map (fun l => ESend k1 (unrle l)) ls ++ [EIdle k2]) (c_bursts c).
+              (match fault_of f with Some x => [EFault k1 x] | None => [] end)
+              ++ map (fun l => match l with Some l' => ESend k1 (unrle l') | None => EBad end) ls
+              ++ [EIdle k2]) (c_bursts c).
 
 (* None = no channel; Some None = the writer failed; Some (Some w) = final state *)
 Definition c_model (c : ccase) : option (option wl) :=
@@ -235,7 +269,9 @@ Definition c_mismatch (c : ccase) : bool :=
   | Some (Some w) =>
       negb (c_new_ok c && negb (c_blocked c)
             && beq (rf_cur (wl_rf w)) (unrle (c_cur c))
-            && rot_eqb (sort_rot (rf_rot (wl_rf w))) (unrot (c_rot c)))
+            && rot_eqb (sort_rot (rf_rot (wl_rf w))) (unrot (c_rot c))
+            && list_eqb beq (rf_moved (wl_rf w)) (map unrle (c_moved c))
+            && list_eqb beq (rf_gone (wl_rf w)) (map unrle (c_gone c)))
   end.
 
 Definition c_class (c : ccase) : bool * bool :=
@@ -251,9 +287,9 @@ Definition c_sig (c : ccase) : N :=
   else if c_blocked c then (if c_openable c then SIG_BLOCK else SIG_BLOCK_UNOPENABLE)
   else
     let init := unrle (c_init c) in
-    let files := map snd (unrot (c_rot c)) ++ [unrle (c_cur c)] in
-    let sent := lines_of init ++
-                flat_map (fun b => flat_map (fun l => lines_of (unrle l)) (snd b)) (c_bursts c) in
+    let files := map unrle (c_gone c) ++ map unrle (c_moved c) ++ map snd (unrot (c_rot c)) ++ [unrle (c_cur c)] in
+    (* the property: every encodable event sent while the destination was reachable *)
+    let sent := lines_of (init ++ wl_accepted true (c_events c)) in
     if negb (size_ok (c_max c) init files) then SIG_SIZE
     else let '(d, s) := c_class c in lines_sig sent files d s.
 
@@ -267,7 +303,8 @@ Definition violations (cs : list case) : list (N * N) :=
     if (s =? 0)%N then [] else [(case_id c, s)]) cs.
 
 (* tag bits: 1 a rotation happened, 2 rotation without newline in the window, 4 two rotations in
-   one second, 8 outside remove/rename, 16 rotation at (re)open, 32 channel case, 64 New refused to create the channel *)
+   one second, 8 outside remove/rename, 16 rotation at (re)open, 32 channel case, 64 New refused to create the channel,
+   128 a fault of the destination (directory away / file removed or renamed under the channel), 256 an unencodable event *)
 Definition hist_tag (h : list hent) : N :=
   ((if existsb is_rot h then 1 else 0)
    + (if has_nowin h then 2 else 0)
@@ -279,8 +316,11 @@ Definition tags (cs : list case) : list (N * N) :=
     match c with
     | CW w =>
         ((match w_model w with Some (st, _) => hist_tag (rf_hist st) | None => 0 end)
-         + (if existsb (fun o => match o with CRemove | CMove => true | _ => false end) (w_ops w) then 8 else 0))%N
+         + (if existsb (fun o => match o with CRemove | CMove => true | _ => false end) (w_ops w) then 8 else 0)
+         + (if existsb (fun o => match o with CDirAway => true | _ => false end) (w_ops w) then 128 else 0))%N
     | CC k =>
         (32 + (match c_model k with Some (Some w) => hist_tag (rf_hist (wl_rf w)) | _ => 0 end)
-         + (if c_new_ok k then 0 else 64))%N
+         + (if c_new_ok k then 0 else 64)
+         + (if existsb (fun b => negb (fst (fst (fst b)) =? 0)%N) (c_bursts k) then 128 else 0)
+         + (if existsb (fun b => existsb (fun l => match l with None => true | _ => false end) (snd b)) (c_bursts k) then 256 else 0))%N
     end)) cs.
